@@ -104,7 +104,7 @@ func (w *world1) genDatagram(t *rapid.T) dgram {
 		r := ref.Report{ShortID: id, Timeslot: drawSlot(t, s.now, s.M.Offset, "slot"), Power: drawPower(t, capacity, "power")}
 		return r, key
 	}
-	switch c := rapid.IntRange(0, 14).Draw(t, "dgClass"); c {
+	switch c := rapid.IntRange(0, 15).Draw(t, "dgClass"); c {
 	case 0: // random bytes
 		n := rapid.IntRange(0, 200).Draw(t, "len")
 		return dgram{b: rapid.SliceOfN(rapid.Byte(), n, n).Draw(t, "bytes"), class: "random-bytes"}
@@ -218,6 +218,11 @@ func (w *world1) genDatagram(t *rapid.T) dgram {
 		}
 		keep := rapid.IntRange(n, len(b)-1).Draw(t, "keepZeros")
 		return dgram{b: b[:keep], class: "truncated-zero-tail"}
+	case 14: // a valid report whose signature was replaced by its twin (r, N-s): 256 bits
+		// changed without the key; the datagram is not the one the device signed
+		r, key := wellFormed()
+		r.Sig = ref.HighSTwin(ref.Sign(key, r.SigningBytes()))
+		return dgram{b: r.Encode(), class: "signature-twin"}
 	default: // valid report with trailing bytes (judged by its leading 80 bytes)
 		r, key := wellFormed()
 		r.Sig = ref.Sign(key, r.SigningBytes())
